@@ -55,6 +55,10 @@ func c20Gen(g *core.Gen) {
 			}
 			g.Emit(&c20Case{Fmt: f, Cmd: []string{"create", "-s", "4", "{PAR}", "{F0}", "{MISSING}"}, Class: "create", State: "missing-input", Cwd: cw})
 			g.Emit(&c20Case{Fmt: f, Cmd: []string{"create", "-s", "4", "{NODIR}", "{F0}"}, Class: "create", State: "no-directory", Cwd: cw})
+			// an output file cannot be written: a directory sits at the path of the index / first / last recovery file
+			for _, st := range []string{"blocked-index", "blocked-first-volume", "blocked-last-volume"} {
+				g.Emit(&c20Case{Fmt: f, Cmd: []string{"create", "-s", "4", "-c", "3", "{PAR}", "{F0}", "{F1}"}, Class: "create", State: st, Cwd: cw})
+			}
 			for _, c := range [][]string{
 				{}, {"verify"}, {"repair"}, {"create"}, {"create", "{PAR}"}, {"frobnicate", "{PAR}"}, {"verify", "-zzz", "{PAR}"}, {"-zzz", "verify", "{PAR}"}, {"create", "-s", "x", "{PAR}", "{F0}"}, {"repair", "-doublecheck=maybe", "{PAR}"}, {"-g", "verify", "{PAR}"},
 			} {
@@ -122,6 +126,24 @@ func c20Run(ci interface{}, r *core.Rec) {
 			}
 		}
 		return out
+	}
+	blockedPath := ""
+	switch c.State {
+	case "blocked-index":
+		blockedPath = index
+	case "blocked-first-volume":
+		blockedPath = filepath.Join(setDir, "s.vol00+01.par2")
+		if c.Fmt == "p1" {
+			blockedPath = filepath.Join(setDir, "s.p01")
+		}
+	case "blocked-last-volume":
+		blockedPath = filepath.Join(setDir, "s.vol01+02.par2")
+		if c.Fmt == "p1" {
+			blockedPath = filepath.Join(setDir, "s.p03")
+		}
+	}
+	if blockedPath != "" {
+		os.MkdirAll(filepath.Join(blockedPath, "occupied"), 0755)
 	}
 	switch c.State {
 	case "deleted":
@@ -321,7 +343,17 @@ func c20Run(ci interface{}, r *core.Rec) {
 			fail("repair-possible-but-failed")
 		}
 	case "create":
-		if c.State != "fresh" {
+		if strings.HasPrefix(c.State, "blocked-") {
+			// whichever names Create chose, exit 0 is acceptable only if the written set is complete (checked below);
+			// with the conventional names the blocked path makes one write fail, which must not exit 0
+			if code == 3 {
+				fail("failure-exit-status-wrong")
+				break
+			}
+			if code != 0 {
+				break
+			}
+		} else if c.State != "fresh" {
 			if code == 0 || code == 3 {
 				fail("failure-exit-status-wrong")
 			}
@@ -338,12 +370,19 @@ func c20Run(ci interface{}, r *core.Rec) {
 		}
 		var verr error
 		clean := false
+		// the number of recovery blocks / volumes asked for (-c N, default 3) must all be there
+		want := 3
+		for i, a := range c.Cmd {
+			if a == "-c" && i+1 < len(c.Cmd) {
+				fmt.Sscan(c.Cmd[i+1], &want)
+			}
+		}
 		if c.Fmt == "p2" {
 			res, e := par2.Verify(index, par2.VerifyOptions{NumGoroutines: 1})
-			verr, clean = e, e == nil && !res.ShardCounts.RepairNeeded() && res.ShardCounts.UsableParityShardCount > 0
+			verr, clean = e, e == nil && !res.ShardCounts.RepairNeeded() && res.ShardCounts.UsableParityShardCount == want
 		} else {
 			res, e := par1.Verify(index, par1.VerifyOptions{VerifyAllData: true})
-			verr, clean = e, e == nil && res.AllDataOk
+			verr, clean = e, e == nil && res.AllDataOk && res.FileCounts.UsableParityFileCount == want
 		}
 		if !clean {
 			r.Violatef("create-exit-0-but-set-not-valid", "%s; library Verify: %v", what, verr)
@@ -378,7 +417,7 @@ func init() {
 	core.Register(&core.Prop{
 		ID:    "C20",
 		Level: "model_checking",
-		Rule: "full product through the built par binary: {PAR1, PAR2} x {verify, v, VERIFY, -g 2 verify, verify -a; repair, r, Repair, repair -doublecheck, -g 3 r -doublecheck=true} x archive state {intact, repairable by deletion, by shift/change, by removing appended bytes, shift+deletion, unrepairable, no parity (data intact / file deleted / file only shifted), one block left + shift, damaged index, missing index} x invocation directory {set directory with relative paths, parent with relative paths, unrelated with absolute paths}; create variants (incl. missing input, missing directory), 11 usage-error command lines, unknown extensions. " +
+		Rule: "full product through the built par binary: {PAR1, PAR2} x {verify, v, VERIFY, -g 2 verify, verify -a; repair, r, Repair, repair -doublecheck, -g 3 r -doublecheck=true} x archive state {intact, repairable by deletion, by shift/change, by removing appended bytes, shift+deletion, unrepairable, no parity (data intact / file deleted / file only shifted), one block left + shift, damaged index, missing index} x invocation directory {set directory with relative paths, parent with relative paths, unrelated with absolute paths}; create variants (incl. missing input, missing directory, an output path blocked by a directory: index, first and last recovery file), 11 usage-error command lines, unknown extensions. " +
 			"Oracle (one-directional, as stated): exit 0 => full success by byte truth / library re-verification; verify needed&possible => 1, needed&impossible => 2; repair needed&impossible => 2, possible => 0 and files restored; usage => 3; other failures => neither 0 nor 3; no Go panic; files created relative to the invocation directory. non-trivial = verify/repair/create runs",
 		Assumptions: []string{"'needed' = some protected file not byte-identical; 'possible' = reference count of unfindable slices (unusable files) <= intact recovery blocks (volumes) present"},
 		NewCase:     func() interface{} { return &c20Case{} },
